@@ -1,6 +1,139 @@
 import OtelVerif.Common.Line
 import OtelVerif.Model.C18
-/-! driver for C18 (stub) -/
-def main : IO UInt32 := do
-  IO.eprintln "drv_c18: not built yet"
-  return 2
+/-! driver for C18: models `c18-check` (validate, checker construction, CheckMemLimits histories),
+`c18-rc` (reference-counted start/stop + ticker), `c18-proc` (processor / extension consume) -/
+open OtelVerif OtelVerif.Line OtelVerif.C18
+
+namespace OtelVerif.Drivers.C18
+
+def b01 (b : Bool) : String := if b then "1" else "0"
+
+def kvBool (toks : List String) (k : String) : Option Bool :=
+  match kv toks k with
+  | some "1" => some true
+  | some "0" => some false
+  | _ => none
+
+def parseCfg (t : List String) : Option Config := do
+  let ci ← kvInt t "ci"
+  let gs ← kvInt t "gs"
+  let gh ← kvInt t "gh"
+  let lm ← kvNat t "lm"
+  let sm ← kvNat t "sm"
+  let lp ← kvNat t "lp"
+  let sp ← kvNat t "sp"
+  pure { checkInterval := ci, gcSoft := gs, gcHard := gh, limitMiB := lm, spikeMiB := sm, limitPct := lp, spikePct := sp }
+
+structure CS where
+  cfg : Option Config := none
+  chk : Option Checker := none
+  st : LState := {}
+  -- oracle state, from the implementation's own observations
+  implLastGC : Int := 0
+  pending : Option Reading := none
+  fails : List String := []
+
+def checkHandler : Handler CS where
+  init := {}
+  onOp := fun s toks =>
+    match toks with
+    | "validate" :: t =>
+      match parseCfg t with
+      | some c => ({ s with cfg := some c }, [s!"obs valid {validate c}"])
+      | none => (s, ["obs bad-op"])
+    | "mk" :: t =>
+      match s.cfg, kvNat t "total" with
+      | some c, some total =>
+        let k := mkChecker c total
+        ({ s with chk := some k }, [s!"obs chk limit={k.limit} spike={k.spike}"])
+      | _, _ => (s, ["obs bad-op"])
+    | "check" :: t =>
+      match s.cfg, s.chk, kvInt t "now", kvNat t "r", kvNat t "gcdur", kvNat t "g" with
+      | some c, some k, some now, some r, some gd, some g =>
+        let rd : Reading := { now := now, alloc := r, gcDur := gd, allocAfterGC := g }
+        let o := check k c.gcSoft c.gcHard s.st rd
+        ({ s with st := o.st, pending := some rd }, [s!"obs st refuse={b01 o.st.mustRefuse} gc={b01 o.gcRan} lastgc={o.st.lastGC}"])
+      | _, _, _, _, _, _ => (s, ["obs bad-op"])
+    | _ => (s, ["obs bad-op"])
+  onObs := fun s toks =>
+    match toks, s.cfg, s.chk, s.pending with
+    | [_, "st", rf, gc, lg], some c, some k, some rd =>
+      match kvBool [rf] "refuse", kvBool [gc] "gc", kvInt [lg] "lastgc" with
+      | some refuse, some gcRan, some lastgc =>
+        let fs := (checkObs k c.gcSoft c.gcHard s.implLastGC rd { refuse := refuse, gcRan := gcRan, lastGC := lastgc }).map (fun f => s!"{f} now={rd.now}")
+        { s with implLastGC := lastgc, pending := none, fails := s.fails ++ fs }
+      | _, _, _ => { s with fails := s.fails ++ ["C18/check/unparsable"] }
+    | _, _, _, _ => s
+  onEnd := fun s =>
+    match s.fails with
+    | [] => ["prop check=ok"]
+    | f :: more => [s!"prop check=FAIL sig={f} more={more.length}"]
+
+structure RS where
+  rc : RC := {}
+  -- oracle: users = starts − successful shutdowns, from the implementation's observations
+  users : Int := 0
+  lastOp : String := ""
+  fails : List String := []
+
+def rcHandler : Handler RS where
+  init := {}
+  onOp := fun s toks =>
+    match toks with
+    | ["start"] =>
+      let (rc, err) := s.rc.step .start
+      ({ s with rc := rc, lastOp := "start" }, [s!"obs rc err={b01 err}"])
+    | ["shutdown"] =>
+      let (rc, err) := s.rc.step .shutdown
+      ({ s with rc := rc, lastOp := "shutdown" }, [s!"obs rc err={b01 err}"])
+    | ["tick"] => ({ s with lastOp := "tick" }, [s!"obs tick checked={b01 s.rc.checking}"])
+    | _ => (s, ["obs bad-op"])
+  onObs := fun s toks =>
+    match toks with
+    | [_, "rc", e] =>
+      match kvBool [e] "err" with
+      | some err =>
+        let users := if s.lastOp = "start" then s.users + 1 else if err then s.users else s.users - 1
+        let f := if s.lastOp = "shutdown" && (err != decide (s.users ≤ 0)) then ["C18/refcount/shutdown-error-mismatch"] else []
+        { s with users := users, fails := s.fails ++ f }
+      | none => { s with fails := s.fails ++ ["C18/refcount/unparsable"] }
+    | [_, "tick", c] =>
+      match kvBool [c] "checked" with
+      | some checked =>
+        let f := if checked && s.users ≤ 0 then ["C18/refcount/checking-after-last-shutdown"]
+                 else if !checked && s.users > 0 then ["C18/refcount/not-checking-while-users-remain"] else []
+        { s with fails := s.fails ++ f }
+      | none => { s with fails := s.fails ++ ["C18/refcount/unparsable"] }
+    | _ => s
+  onEnd := fun s =>
+    match s.fails with
+    | [] => ["prop refcount=ok"]
+    | f :: more => [s!"prop refcount=FAIL sig={f} more={more.length}"]
+
+def procHandler : Handler Unit where
+  init := ()
+  onOp := fun s toks =>
+    match toks with
+    | "consume" :: t =>
+      match kvBool t "refusing", kv t "next" with
+      | some refusing, some nx =>
+        let next : Unit → Res := fun _ => if nx = "ok" then .ok else if nx = "perm" then .downstream 1 true else .downstream 1 false
+        let (fwd, res) := consume refusing () next
+        let rs := match res with
+          | .ok => "ok"
+          | .refused => "refused"
+          | .downstream _ p => s!"down perm={b01 p}"
+        (s, [s!"obs res fwd={b01 fwd.isSome} {rs} permanent={b01 res.isPermanent}"])
+      | _, _ => (s, ["obs bad-op"])
+    | "mustrefuse" :: t =>
+      match kvBool t "refusing" with
+      | some r => (s, [s!"obs ext {b01 r}"])
+      | none => (s, ["obs bad-op"])
+    | _ => (s, ["obs bad-op"])
+
+end OtelVerif.Drivers.C18
+
+def main : IO UInt32 :=
+  runMulti [("c18-check", run OtelVerif.Drivers.C18.checkHandler),
+            ("c18-rc", run OtelVerif.Drivers.C18.rcHandler),
+            ("c18-proc", run OtelVerif.Drivers.C18.procHandler)]
